@@ -17,6 +17,13 @@ for m in sorted(glob.glob('/verif/seeded/*/meta.json')):
             if l.startswith("VIOLATION"):
                 lines.append(re.sub(r".*replay=/verif/_build/replay/", "", l)[:70])
                 break
+    rv = os.path.join(os.path.dirname(m), "revalidation.json")
+    if os.path.exists(rv):  # the re-run against the final /repo HEAD is authoritative
+        r = json.load(open(rv))
+        det2 = [c for c, v in r.get("checks", {}).items() if v["rc"] == 1]
+        if det2:
+            det = det2
+            lines = [re.sub(r".*replay=/verif/_build/replay/", "", v["first"][0])[:70] for c, v in r["checks"].items() if v["rc"] == 1 and v["first"]]
     rows.append((d["id"], first[:150].replace("|", "/"), ", ".join(det) or "MISSED", "; ".join(lines)[:90]))
 print("| seeded change | what it is | caught by | first reported replay |")
 print("|---|---|---|---|")
